@@ -56,9 +56,9 @@ pub mod rustix {
             requires may_write(fd_raw(&fd), buf@),
             ensures w_write_called(fd_raw(&fd), buf@),
         { unimplemented!() }
-        #[verifier::external_body]
         /// must-call side / result witness: read(fd, ..) has returned Ok(n) and left `data` in the first n bytes of the buffer
         pub uninterp spec fn w_read_returned(fd: int, data: Seq<u8>) -> bool;
+        #[verifier::external_body]
         pub fn read<Fd: std::os::fd::AsFd>(fd: Fd, buf: &mut [u8]) -> (r: Result<usize, Errno>)
             ensures final(buf)@.len() == old(buf)@.len(),
                     r matches Ok(n) ==> n <= old(buf)@.len() && w_read_returned(fd_raw(&fd), final(buf)@.take(n as int)),
